@@ -406,11 +406,19 @@ CLAIMS = {
          "processes, comparing Go text, every stage dump, diagnostics, interface/core bytes and hashes, link results byte for byte. "
          "The recompiled projects include an emission-collections family: well-typed programs with k = 2..6 members of each collection the "
          "middle/back end prints (Go packages of extern functions / extern types, tuple / array / Ref / Vec types, structs, enums, dyn "
-         "traits x implementors, generic and bounded instances, closures, go statements, externs spread over k packages through build + link).",
+         "traits x implementors, generic and bounded instances, closures, go statements, externs spread over k packages through build + link) "
+         "and its complement, a definition-only family: k = 2..6 tuple / array / Ref (and nested, dyn, function, Vec) types that no function "
+         "signature or body mentions and that reach the output only through emitted type definitions (payloads of variants nobody builds "
+         "or matches, fields of unbuilt structs, instances of generic enums / structs of which only the payload-free variant is built, "
+         "definitions spread over k enums / structs / files / packages), each recompiled 40x in process and in 23 processes. "
+         "An iteration over a std HashMap/HashSet anywhere in the non-test sources that tools/hashiter.py has not classified (or has "
+         "classified as observable) fails the check as a broken tie naming the site; the scanner's own coverage (29 ways of introducing a "
+         "hash-typed binding x 22 ways of iterating it, plus ordered-collection controls) is re-tested on every run.",
     design_ref="§5 C13, §C13 — as built",
     note="Trusted: Lean kernel; tools/extract.py gen_package_ids; error-message classification and the project generator in harness/src/c13.rs; "
          "SipHash-128 digests for the cross-process comparison; String order in Rust = Lean. tools/hashiter.py (source scan of HashMap/HashSet "
-         "iterations, heuristic) is auxiliary. Three defects found and fixed (known_findings.json).",
+         "iterations, regex heuristic with a hand-written classification table, not part of the proof) can only raise a broken tie, never "
+         "vouch for determinism. Three defects found and fixed (known_findings.json).",
     technique="Lean 4 proof (sorted-set uniqueness, DFS invariants) + differential correspondence + K-fold / cross-process byte comparison"),
  "C16": dict(
     category="proof",
